@@ -19,6 +19,7 @@ use std::fs::{self, canonicalize, create_dir_all, read_link, File, Metadata};
 use std::os::unix::fs::MetadataExt;
 use std::path::{Path, PathBuf};
 use std::sync::Arc;
+use std::sync::atomic::{AtomicBool, Ordering};
 
 use crossbeam_channel as cbc;
 use libfs::{
@@ -39,6 +40,7 @@ pub struct CopyHandle {
     pub outfd: File,
     pub metadata: Metadata,
     pub config: Arc<Config>,
+    finalised: AtomicBool,
 }
 
 impl CopyHandle {
@@ -78,6 +80,7 @@ impl CopyHandle {
             outfd,
             metadata,
             config: config.clone(),
+            finalised: AtomicBool::new(false),
         };
 
         Ok(handle)
@@ -135,6 +138,7 @@ impl CopyHandle {
 
     pub fn copy_file(&self, updates: &Arc<dyn StatusUpdater>) -> Result<u64> {
         if self.try_reflink()? {
+            self.finalise()?;
             return Ok(self.metadata.len());
         }
         let total = if probably_sparse(&self.infd)? {
@@ -142,8 +146,20 @@ impl CopyHandle {
         } else {
             self.copy_bytes(self.metadata.len(), updates)?
         };
+        self.finalise()?;
 
         Ok(total)
+    }
+
+    /// Apply permissions, timestamps, ownership and sync as
+    /// configured, once all data has been written. Drivers should
+    /// call this so that failures are reported; if they don't it is
+    /// done (and errors only logged) when the handle is dropped.
+    pub fn finalise(&self) -> Result<()> {
+        if self.finalised.swap(true, Ordering::SeqCst) {
+            return Ok(());
+        }
+        self.finalise_copy()
     }
 
     fn finalise_copy(&self) -> Result<()> {
@@ -167,7 +183,7 @@ impl CopyHandle {
 impl Drop for CopyHandle {
     fn drop(&mut self) {
         // FIXME: Should we check for panicking() here?
-        if let Err(e) = self.finalise_copy() {
+        if let Err(e) = self.finalise() {
             error!("Error during finalising copy operation {:?} -> {:?}: {}", self.infd, self.outfd, e);
         }
     }
